@@ -38,11 +38,30 @@ def comp(C, key):
     return C[i, j, k, l]
 
 
+def soft_target_tensor(key):
+    """generic tensor whose target component is small (0.43) next to longitudinal constants of ~300: the solver's result
+    is a small difference of large numbers"""
+    m = generic_tensor() * 300.0 / numpy.abs(generic_tensor()).max()
+    i, j = key.voigt
+    m[i - 1, j - 1] = m[j - 1, i - 1] = 0.43
+    return m
+
+
 def run_case(case):
     from cij.core.phonon_contribution.shear import ShearElasticModulusPhononContribution as Shear
     from cij.util import c_
     a, b = case["key"]
-    key = c_(a, b)
+    spelling = case.get("keyspell", "c_")
+    if spelling == "c_":
+        key = c_(a, b)
+    else:
+        # the target key as a caller holding index arrays would build it: public classmethods with numpy integers
+        from cij.util import C_
+        from mc.ref import voigt_ref as VR
+        std = [x for pair in (VR.V2S[a], VR.V2S[b]) for x in pair]
+        key = {"from_voigt:np": lambda: C_.from_voigt(numpy.int64(a), numpy.int64(b)),
+               "from_standard:np": lambda: C_.from_standard(*[numpy.int64(x) for x in std]),
+               "create4:np": lambda: C_.create(*[numpy.int32(x) for x in std])}[spelling]()
     v = numpy.array([280.0, 320.0, 301.0, 264.0][:case.get("ntv", 2)])
     strain = D.strain_field(case["strain"], v)
     viol = []
@@ -139,6 +158,31 @@ def run_case(case):
             if not abs(got - want) <= TOL * numpy.abs(C6).max():
                 viol.append(V(f"c03:dict-layout:{present}", f"c{a}{b} on tensor {name} with the known components supplied '{present}': solver returned {got!r}, exact component {want!r}"))
                 break
+    # storage precision of the supplied components: the same VALUES handed over as float32 / float16 arrays must give
+    # the result of the float64 arrays holding those values (the solver works in double precision whatever the storage)
+    def solve_stored(o, C6, Tm, dt):
+        C = R.full_from_voigt(C6)
+        Cr = R.rotate(C, Tm)
+        k1, k2 = list(o.get_modulus_keys()), list(o.get_modulus_keys_rotated())
+        m1 = {k: numpy.array([comp(C, k)]).astype(dt) for k in k1}
+        m2 = {k: numpy.array([comp(Cr, k)]).astype(dt) for k in k2}
+        out = []
+        for cast in (lambda x: x, lambda x: x.astype(numpy.float64)):
+            o.modulus = {k: cast(x) for k, x in m1.items()}
+            o.modulus_rotated = {k: cast(x) for k, x in m2.items()}
+            out.append(float(numpy.real(numpy.asarray(o.get_target_elastic_modulus()).ravel()[0])))
+        return out
+    for dt in (numpy.float32, numpy.float16):
+        for name, C6 in tensors[:21] + [("generic", generic_tensor()), ("soft-target", soft_target_tensor(key))]:
+            try:
+                g_stored, g_f64 = solve_stored(obj, C6, T, dt)
+            except Exception as ex:
+                viol.append(V(f"c03:storage-dtype:raises:{type(ex).__name__}", f"c{a}{b} on {name} stored as {numpy.dtype(dt).name}: {ex!r}"))
+                break
+            n_eval += 1
+            if not abs(g_stored - g_f64) <= 1e-12 * numpy.abs(C6).max():
+                viol.append(V(f"c03:storage-dtype:{numpy.dtype(dt).name}", f"c{a}{b} on tensor {name}: components stored as {numpy.dtype(dt).name} give {g_stored!r}, the same values stored as float64 give {g_f64!r}"))
+                break
     # every sign pattern and column order of the frame: same pairing (eigenvalue <-> fraction), same result
     subst = 0
     base_pairs = sorted((round(float(Dm[i, i]), 9), tuple(numpy.round(exp[:, i], 10))) for i in range(3))
@@ -165,7 +209,7 @@ def run_case(case):
 
 
 def explore(ctx):
-    ctx.rule = ("15 shear-type keys x 9 axial-strain fields x 1-4 strain rows (3 rows make the array square; one field has integer dtype) (incl. a hydrostatic row among anisotropic rows, two equal fractions, un-normalised triples (1,1,1), (0.9,1,1.2), (2,3,7)); known components handed over in 5 dictionary layouts (asked order, reversed, sorted, all 21 components in two orders); each case "
+    ctx.rule = ("15 shear-type keys x 9 axial-strain fields x 1-4 strain rows (3 rows make the array square; one field has integer dtype), target key also built through the public classmethods from numpy integers (incl. a hydrostatic row among anisotropic rows, two equal fractions, un-normalised triples (1,1,1), (0.9,1,1.2), (2,3,7)); known components handed over in 5 dictionary layouts and in float32 / float16 storage (same values as float64: same result) (asked order, reversed, sorted, all 21 components in two orders); each case "
                 "runs the solver on the 21 unit tensors, all 210 pairwise sums (linearity is tested, not assumed) and one generic tensor, the "
                 "unit and generic tensors also on the numeric scales 1e-12, 1e-7, 1e9 (homogeneity), with exact components supplied "
                 "from an independent einsum rotation; plus all 48 sign/column-order variants of the frame; complete in "
@@ -173,6 +217,7 @@ def explore(ctx):
     ctx.assumptions = ["numpy einsum/LAPACK", "frame taken from the implementation only after checking it is a real orthonormal eigenbasis of the key's fictitious strain"]
     cases = [{"key": list(k), "strain": s, "ntv": 2} for k in SHEAR_PAIRS for s in STRAINS]
     cases += [{"key": list(k), "strain": s, "ntv": n} for k in SHEAR_PAIRS for s in ("field", "raw", "int", "mixed-rows") for n in NTV[1:]]
+    cases += [{"key": list(k), "strain": "field", "ntv": 2, "keyspell": sp} for k in SHEAR_PAIRS for sp in ("from_voigt:np", "from_standard:np", "create4:np")]
     res = ctx.run(MOD, "run_case", cases, part="basis-exactness", transitions=len(cases) * (232 + 66))
     ctx.notes["solver_evaluations"] = sum(r.get("evals", 0) for r in res)
     ctx.notes["frame_substitutions"] = sum(r.get("subst", 0) for r in res)
